@@ -3,7 +3,7 @@
 # of the property it was written against is run (-repo), 8 at a time. Never touches /repo's working tree.
 # Usage: own_matrix.sh [dir with <seed>/patch.diff (default /verif/seeded)]   Output: one line per seed.
 dir=${1:-/verif/seeded}
-bin=/verif/bin/vorecheck; [ -x /verif/bin/vorecheck.dev ] && bin=/verif/bin/vorecheck.dev
+bin=/verif/bin/vorecheck; [ -x /verif/bin/vorecheck.dev ] && bin=/verif/bin/vorecheck.dev; [ -n "$VBIN" ] && bin=$VBIN
 one() {
   sd=$1; dir=$2; bin=$3
   p=${sd:0:3}
